@@ -279,6 +279,8 @@ def check(col: Collector, tier: str):
     s = src(gd.node)
     col.add("C10.R6", "terminal.get_dereferenced_type", "depth-lowered-by-one-on-a-copy", "new_t._p_depth -= 1" in s and "copy.copy(self)" in s and "raise" in s, "", gd.loc)
 
+    from sa.props._tr import check_default_types_not_reapplied
+    check_default_types_not_reapplied(col, "C10.R3", repo)
     # ------------------------------------------------------------ R7 tree type (shared with C03)
     from sa.props._tr import import_obligations
     import_obligations(col, "C10.R8", "c07", lambda o: o.rule == "C07.R5" and ("store-into" in o.detail or "merge-into" in o.detail or o.detail == "registries-not-imported-by-value"),
